@@ -98,6 +98,7 @@ package retrypolicy
 //@   ensures [C13.delay.maxduration] e.maxDuration != 0 ==> result <= max(0, e.maxDuration - el)
 //@   ensures [C13.delay.func_used+C18.retry_after.not_capped_by_backoff] useFunc && e.jitter == 0 && e.jitterFactor == 0 ==> result == max(0, ite(e.maxDuration != 0, min(computed, e.maxDuration - el), computed))
 //@   ensures [C13.delay.func_keeps_backoff_state] useFunc ==> e.lastDelay == old(e.lastDelay)
+//@   ensures [C13.delay.remaining_budget_read_last] ncalls(exec.ElapsedTime) == 1 && (e.DelayFunc != nil ==> ncalls(e.DelayFunc) == 1 && tickof(e.DelayFunc, 1) < tickof(exec.ElapsedTime, 1))
 //@   ensures [C13.delay.no_jitter_accumulation] !useFunc ==> e.lastDelay == g
 //@   ensures [C13.delay.state_inv] e.Delay != 0 ==> e.lastDelay == 0 || (0 < e.lastDelay && (e.maxDelay != 0 ==> e.lastDelay <= e.maxDelay))
 //@   ensures [C13.delay.fixed] !useFunc && e.Delay != 0 && e.maxDelay == 0 && e.jitter == 0 && e.jitterFactor == 0 ==> result == max(0, ite(e.maxDuration != 0, min(e.Delay, e.maxDuration - el), e.Delay))
